@@ -405,8 +405,14 @@ def direct(ctx, op, st, kind, want, c):
     else:
         flags = [{}, {"skip_validation": True}, {"allow_inapplicable_actions": True},
                  {"skip_validation": True, "allow_inapplicable_actions": True}][ctx.s("ops").draw(4)]
+        if ctx.s("sched").draw(4) == 0:
+            # the caller's first use of this operator object is interrupted at an arbitrary line (or, when the line
+            # lies beyond the call, simply completes); the object is then used again
+            first = [lambda: op.apply(st, **flags), lambda: op.is_applicable(st), op.ground][ctx.s("sched").draw(3)]
+            if C.interrupted(ctx, first):
+                ctx.probes["direct_after_interrupted_first_use"] += 1
         try:
-            r = op.apply(st, **flags)  # a fresh, never grounded operator
+            r = op.apply(st, **flags)  # a fresh, never grounded operator (unless interrupted above)
         except Exception as e:
             raise Violation("C04/applicable-action-refused", site, f"{C.fmt_call(*c)} {flags}: {type(e).__name__}: {e}")
         got = C.abs_state(r, site, ID)
